@@ -10,168 +10,406 @@ from __future__ import annotations
 
 import ast
 
-from ..linform import linform, single_assign_env
 from ..pm import dotted, unparse, walk_no_nested
 from ..report import Ctx
 from . import tablecore as T
 
-PAGE_W = ("document.rtf_page.col_width", "document.rtf_page.col_width or 8.5")
+
+
+ROW_ENCODERS = {
+    "encode_column_header": (2, "page_col_width"), "encode_footnote": (2, "page_col_width"), "encode_source": (2, "page_col_width"),
+    "encode_spanning_row": (1, "page_width"),
+}
+
+
+def _is_page_width(e: ast.AST, fn: ast.AST):
+    """classify a width expression: 'ok' (rtf_page.col_width, possibly with the dead 8.5 fallback), ('bad', why) or ('?', text)"""
+    from ..astmatch import alternatives, leaves
+    verdicts = []
+    for w in alternatives(e, fn):
+        lv = set(leaves(w))
+        txt = unparse(w)
+        page = {x for x in lv if x.endswith(".rtf_page.col_width") or x == "rtf_page.col_width"}
+        arith = any(isinstance(n, ast.BinOp) for n in ast.walk(w))
+        calls = [dotted(n.func) for n in ast.walk(w) if isinstance(n, ast.Call)]
+        rest = lv - page - {"8.5", "None"}
+        if page and not rest and not arith and not calls:
+            verdicts.append(("ok", txt))
+        elif not page and not rest and not calls:
+            verdicts.append(("bad", f"`{txt}`: a fixed width"))
+        elif any(x.split(".")[-1] in ("width", "height", "margin") or ".rtf_page." in x and not x.endswith(".col_width") for x in rest) or (page and arith) \
+                or any(c in ("min", "max", "sum") for c in calls):
+            verdicts.append(("bad", f"`{txt}`"))
+        else:
+            verdicts.append(("?", txt))
+    return verdicts
 
 
 def r08_1(ctx: Ctx) -> None:
+    from ..callgraph import CallGraph
+    from ..pm import AnalysisError
     pm = ctx.pm
-    # (a) Cell(width=…) sites
-    n = 0
+    T.scenario_note(ctx, "R08.1", "TableAttributes._encode / encode_spanning_row / encode_column_header / encode_footnote / encode_source",
+                    "for every width value handed in (widths are opaque atoms or exact rationals that are only passed on)",
+                    {"_encode": "3x2 segment x 3 attribute shapes x cell_nrow unset/set", "encode_spanning_row": "column 1, attribute shapes 7x3 and 1x1",
+                     "row encoders": "one component with 3 relative widths, rendered as a table", "evaluations": 6 + 2 + 3})
+    ctx.explain("[R08.1] (b) the width argument at the call sites of the row encoders is decided structurally (the expression is expanded through temporaries and "
+                "if/else arms and classified by its leaves): that part does not depend on any witness shape.")
+    # (a) the right boundary of every cell that is built: col_widths[j] for data/header/footnote rows (TableAttributes._encode), the table
+    #     width for a spanning row; read off the interpreted scenarios
+    enc = pm.func("TableAttributes._encode")
+    n_cells, bad = 0, []
+    for rec in T.encode_scenarios(pm):
+        if "error" in rec:
+            ctx.gap("R08.1", f"TableAttributes._encode could not be interpreted ({rec['error'][:100]}): cell widths undetermined")
+            break
+        for i, row in enumerate(rec["rows"]):
+            cells = row.attrs.get("row_cells")
+            for j, cell in enumerate(cells if isinstance(cells, (list, tuple)) else []):
+                w = cell.attrs.get("width") if isinstance(cell, T.Obj) else None
+                n_cells += 1
+                if isinstance(w, T.Sym):
+                    ctx.gap("R08.1", f"TableAttributes._encode: width of cell ({i}, {j}) could not be determined")
+                elif j >= len(rec["widths"]) or w != rec["widths"][j]:
+                    bad.append(f"cell ({i}, {j}) ends at {w!r}, col_widths = {rec['widths']!r}")
+    ctx.instance("R08.1", enc.where(), f"TableAttributes._encode: Cell(width=col_widths[j]) on {n_cells} interpreted cells: {not bad}")
+    if bad:
+        ctx.violation("R08.1", enc.short, "Cell width " + bad[0][:80], enc.where(), f"{enc.short}: a cell's right boundary is not the cumulative column width of its column: {bad[0]}")
+    sp = pm.func("RTFEncodingService.encode_spanning_row")
+    for rec in T.spanning_scenarios(pm):
+        if "error" in rec:
+            ctx.gap("R08.1", f"encode_spanning_row could not be interpreted ({rec['error'][:100]}): cell width undetermined")
+            continue
+        cells = rec["row"].attrs.get("row_cells")
+        ws = [c.attrs.get("width") for c in cells] if isinstance(cells, (list, tuple)) and all(isinstance(c, T.Obj) for c in cells) else None
+        ctx.instance("R08.1", sp.where(), f"{sp.short} ({rec['shape']} attributes): Cell widths {ws!r} for page_width {rec['width']!r}")
+        if ws is None or any(isinstance(w, T.Sym) for w in ws):
+            ctx.gap("R08.1", "encode_spanning_row: the cells of the spanning row could not be determined")
+        elif ws != [rec["width"]]:
+            ctx.violation("R08.1", sp.short, f"Cell width {ws!r}"[:80], sp.where(), f"{sp.short}: the spanning row is not one cell ending at the table width it was given (cells end at {ws!r})")
+    cg = CallGraph(pm)
+    covered = cg.reachable([enc.short, sp.short])
     for fi in pm.iter_funcs():
-        for c in walk_no_nested(fi.node):
-            if isinstance(c, ast.Call) and dotted(c.func) == "Cell":
-                w = next((unparse(k.value) for k in c.keywords if k.arg == "width"), None)
-                n += 1
-                ok = (fi.short == "TableAttributes._encode" and w == "col_widths[j]") or (fi.short == "RTFEncodingService.encode_spanning_row" and w == "page_width")
-                ctx.instance("R08.1", fi.where(c), f"{fi.short}: Cell(width={w})")
-                if not ok:
-                    ctx.violation("R08.1", fi.short, f"Cell width {w}", fi.where(c), f"{fi.short}: a cell's right boundary is `{w}`, not the cumulative column width of its column / the table width of a spanning row")
-    # (b) width argument at the call sites of the row encoders
-    sites = {
-        "encode_column_header": (2, "page_col_width"), "encode_footnote": (2, "page_col_width"), "encode_source": (2, "page_col_width"),
-        "encode_spanning_row": (None, "page_width"),
-    }
-    for fi in pm.iter_funcs():
-        if fi.cls not in ("PageRenderer", "UnifiedRTFEncoder"):
+        root = fi
+        while root.parent is not None:
+            root = root.parent
+        if fi.short in covered or root.short in covered or root.short in (enc.short, sp.short):
             continue
         for c in walk_no_nested(fi.node):
-            if isinstance(c, ast.Call) and dotted(c.func).split(".")[-1] in sites:
-                nm = dotted(c.func).split(".")[-1]
-                pos, kwname = sites[nm]
+            if isinstance(c, ast.Call) and dotted(c.func) == "Cell":
+                ctx.instance("R08.1", fi.where(c), f"{fi.short}: Cell(...) built outside the two row builders")
+                ctx.gap("R08.1", f"{fi.short} builds a Cell outside TableAttributes._encode / encode_spanning_row: its width could not be related to the table's column boundaries")
+    # (b) width argument at the call sites of the row encoders: rtf_page.col_width of the document being encoded
+    for fi in pm.iter_funcs():
+        if fi.name in ROW_ENCODERS:
+            continue
+        for c in walk_no_nested(fi.node):
+            if isinstance(c, ast.Call) and isinstance(c.func, ast.Attribute) and c.func.attr in ROW_ENCODERS:
+                nm = c.func.attr
+                pos, kwname = ROW_ENCODERS[nm]
+                target = pm.funcs.get("RTFEncodingService." + nm)
+                if target is not None:
+                    names = [a.arg for a in target.node.args.args][1:]
+                    if kwname in names:
+                        pos = names.index(kwname)
                 arg = next((k.value for k in c.keywords if k.arg == kwname), None)
-                if arg is None and pos is not None and len(c.args) > pos:
+                if arg is None and pos is not None and len(c.args) > pos and not any(isinstance(a, ast.Starred) for a in c.args):
                     arg = c.args[pos]
                 txt = unparse(arg) if arg is not None else "<missing>"
                 ctx.instance("R08.1", fi.where(c), f"{fi.short}: {nm}(…, {kwname}={txt})")
-                if txt not in PAGE_W:
-                    ctx.violation("R08.1", fi.short, f"{nm} width {txt}", fi.where(c), f"{fi.short}: {nm} is laid out in `{txt}`, not in rtf_page.col_width of the document being encoded")
-    # (c) inside the encoders the width reaches _col_widths / Cell unchanged
-    es = pm.func("RTFEncodingService")  if False else None
+                if arg is None:
+                    if any(k.arg is None for k in c.keywords) or any(isinstance(a, ast.Starred) for a in c.args):
+                        ctx.gap("R08.1", f"{fi.short}: the width handed to {nm} is passed through */** and could not be determined")
+                    else:
+                        ctx.violation("R08.1", fi.short, f"{nm} width {txt}", fi.where(c), f"{fi.short}: {nm} is called without the table width (rtf_page.col_width of the document being encoded)")
+                    continue
+                vs = _is_page_width(arg, fi.node)
+                for kind, why in vs:
+                    if kind == "bad":
+                        ctx.violation("R08.1", fi.short, f"{nm} width {txt}", fi.where(c), f"{fi.short}: {nm} is laid out in {why}, not in rtf_page.col_width of the document being encoded")
+                    elif kind == "?":
+                        ctx.gap("R08.1", f"{fi.short}: the width `{why[:60]}` handed to {nm} could not be traced to rtf_page.col_width")
+    # (c) inside the encoders the width reaches Utils._col_widths unchanged, together with the component's own col_rel_width
+    W = T._Fr(19, 2)
     for short, wparam in (("RTFEncodingService.encode_column_header", "page_col_width"), ("RTFEncodingService.encode_footnote", "page_col_width"),
                           ("RTFEncodingService.encode_source", "page_col_width")):
         fi = pm.func(short)
-        env = single_assign_env(fi.node)
-        calls = [c for c in walk_no_nested(fi.node) if isinstance(c, ast.Call) and dotted(c.func).endswith("_col_widths")]
-        for c in calls:
-            w = c.args[1] if len(c.args) > 1 else None
-            while isinstance(w, ast.Name) and w.id in env:
-                w = env[w.id]
-            rel = unparse(c.args[0])
-            ctx.instance("R08.1", fi.where(c), f"{short}: _col_widths({rel}, {unparse(w)})")
-            if unparse(w) != wparam:
-                ctx.violation("R08.1", short, f"_col_widths width {unparse(w)}", fi.where(c), f"{short}: column boundaries are scaled to `{unparse(w)}` instead of the table width it was given")
-            if rel != "rtf_attrs.col_rel_width":
-                ctx.violation("R08.1", short, f"_col_widths rel {rel}", fi.where(c), f"{short}: boundaries are not derived from the component's own col_rel_width")
-        if not calls:
-            ctx.violation("R08.1", short, "no _col_widths", fi.where(), f"{short} no longer derives boundaries from relative widths and the table width")
+        ps = [a.arg for a in fi.node.args.args]
+        rel = [T.AV("col_rel_width", 0, c) for c in range(3)]
+        comp_cls = {"encode_column_header": "RTFColumnHeader", "encode_footnote": "RTFFootnote", "encode_source": "RTFSource"}[fi.name]
+        comp = T.Obj("component", cls=comp_cls, col_rel_width=list(rel), as_table=True, text=["x", "y", "z"], border_bottom=[[""]])
+        args = {ps[0]: T.Sym("self", fi.cls)}
+        if fi.name == "encode_column_header":
+            args.update({ps[1]: T.Frame("header", range(1), ["col_1", "col_2", "col_3"]), ps[2]: comp} if len(ps) > 2 else {})
+        else:
+            args.update({ps[1]: comp} if len(ps) > 1 else {})
+            args.update({p: v for p, v in (("page_number", 1), ("border_style", None)) if p in ps})
+        if wparam not in ps:
+            ctx.gap("R08.1", f"{short}: parameter {wparam} not found")
+            continue
+        args[wparam] = W
+        try:
+            runs = T.Scen(pm, markers={"_col_widths": "scalar", "_encode": "list", "_set_default": "self", "_encode_text": "list"}).runs(fi, args)
+        except AnalysisError as e:
+            ctx.gap("R08.1", f"{short} could not be interpreted on a mock component: {e}")
+            continue
+        for _v, r in runs:
+            if r.raised:
+                ctx.gap("R08.1", f"{short} raises {r.raised} on a mock component")
+                continue
+            encs = [m for m in r.trace if m.name == "_encode"]
+            calls = [m for m in r.trace if m.name == "_col_widths"]
+            ctx.instance("R08.1", fi.where(), f"{short}: {[repr(c)[:90] for c in calls]} -> {[repr(m.arg(1, 'col_widths'))[:40] for m in encs]}")
+            if not encs:
+                ctx.gap("R08.1", f"{short}: no table row is encoded for a component rendered as a table")
+                continue
+            for m in encs:
+                cw = m.arg(1, "col_widths")
+                if not (isinstance(cw, T.Mark) and cw.name == "_col_widths"):
+                    ctx.violation("R08.1", short, "no _col_widths", fi.where(), f"{short} no longer derives boundaries from relative widths and the table width: rows are encoded with widths `{cw!r}`"[:300])
+                    continue
+                r_, w_ = cw.arg(0, "rel_widths"), cw.arg(1, "col_width")
+                if isinstance(w_, T.Sym) or isinstance(r_, T.Sym):
+                    ctx.gap("R08.1", f"{short}: arguments of Utils._col_widths could not be determined")
+                    continue
+                if w_ != W:
+                    ctx.violation("R08.1", short, f"_col_widths width {w_!r}"[:80], fi.where(), f"{short}: column boundaries are scaled to `{w_!r}` instead of the table width it was given")
+                if r_ != rel:
+                    ctx.violation("R08.1", short, f"_col_widths rel {r_!r}"[:80], fi.where(), f"{short}: boundaries are not derived from the component's own col_rel_width")
     T.body_section_widths(ctx, "R08.1")
     ctx.floor("R08.1", 13)
 
 
 def r08_2(ctx: Ctx) -> None:
-    """auto-populated header text lives in REDUCED column space; its widths must too"""
+    """auto-populated header text lives in REDUCED column space; its widths must too.  _render_column_headers is interpreted for
+    a header without text (automatic column names) on a page whose page_by column was removed: the header handed to
+    encode_column_header must carry one relative width per displayed column, taken from the page's reduced attributes, and
+    the document's table width."""
+    from ..pm import AnalysisError
     pm = ctx.pm
     fi = pm.func("PageRenderer._render_column_headers")
-    branches = [n for n in ast.walk(fi.node) if isinstance(n, ast.If) and "header_copy.text is None" in unparse(n.test) and "as_colheader" in unparse(n.test)]
-    if len(branches) != 1:
-        ctx.gap("R08.2", "the automatic column header branch (`text is None and as_colheader`) could not be re-identified in _render_column_headers")
+    ps = [a.arg for a in fi.node.args.args]
+    if len(ps) != 3:
+        ctx.gap("R08.2", "_render_column_headers: signature (self, document, page) not recognised")
         return
-    br = branches[0]
-    src = [unparse(a.value) for a in ast.walk(br) if isinstance(a, ast.Assign) and unparse(a.targets[0]) in ("page_df", "columns")]
-    reduced = any("page.data" in s for s in src)
-    width_fix = [a for a in ast.walk(br) if isinstance(a, ast.Assign) and unparse(a.targets[0]) == "header_copy.col_rel_width"]
-    wsrc = unparse(width_fix[0].value) if width_fix else None
-    if width_fix:
-        local = {unparse(a.targets[0]): unparse(a.value) for a in ast.walk(br) if isinstance(a, ast.Assign) and len(a.targets) == 1 and isinstance(a.targets[0], ast.Name)}
-        for nm in [x.id for x in ast.walk(width_fix[0].value) if isinstance(x, ast.Name)]:
-            if nm in local:
-                wsrc += " <- " + local[nm]
-    ctx.instance("R08.2", fi.where(br), f"auto header text from {src} (reduced column space: {reduced}); header widths re-based in the same branch: {wsrc}")
-    if reduced and not width_fix:
-        ctx.violation("R08.2", fi.short, "auto header widths stay in full column space", fi.where(br),
-                      "the automatic header takes its texts from the page's displayed columns (page_by/subline_by columns removed) but keeps the col_rel_width it "
-                      "inherited from the body for ALL columns: after column removal the header cells no longer line up with the data columns and end at a different right edge")
-    elif width_fix and not any(k in wsrc for k in ("page.table_attrs", "page.col_widths", "final_body_attrs")):
-        ctx.violation("R08.2", fi.short, "auto header widths from " + wsrc, fi.where(width_fix[0]), f"automatic header widths are taken from `{wsrc}`, not from the page's reduced attributes")
-    # header encoding uses the header copy's own widths and the page width
-    call = [c for c in walk_no_nested(fi.node) if isinstance(c, ast.Call) and dotted(c.func).endswith("encode_column_header")]
-    args = [unparse(a) for a in call[0].args] if call else []
-    if args != ["header_copy.text", "header_copy", "document.rtf_page.col_width"]:
-        ctx.violation("R08.2", fi.short, "encode_column_header args " + str(args), fi.where(), "a header row is not encoded from its per-page copy and the document's table width")
+    full = [T.AV("body_width", 0, c) for c in range(3)]
+    T.scenario_note(ctx, "R08.2", "PageRenderer._render_column_headers", "for every width entry and column name",
+                    {"document": "one header without text, body as_colheader, 3 columns of which 1 (page_by) removed", "page": "3 rows x 2 displayed columns, first page", "evaluations": 1})
+    reduced = [T.AV("page_width", 0, c) for c in range(2)]
+    W = T._Fr(19, 2)
+
+    def mk():
+        header = T.Obj("header", cls="RTFColumnHeader", text=None, col_rel_width=list(full), border_top=[[""]])
+        body = T.Obj("rtf_body", cls="RTFBody", as_colheader=True, page_by=["g"], col_rel_width=list(full))
+        doc = T.Obj("document", cls="RTFDocument", rtf_column_header=[header], rtf_body=body,
+                    rtf_page=T.Obj("rtf_page", cls="RTFPage", col_width=W, border_first="", width=T._Fr(17, 2)), df=T.Frame("table", range(6), ["g", "a", "b"]))
+        page = T.Obj("page", cls="PageContext", data=T.Frame("page", range(3), ["a", "b"]), is_first_page=True, is_last_page=False, page_number=1,
+                     table_attrs=T.Obj("table_attrs", cls="RTFBody", col_rel_width=list(reduced)), col_widths=[1, 2])
+        page.attrs["final_body_attrs"] = page.attrs["table_attrs"]
+        return doc, page
+    doc, page = mk()
+    try:
+        runs = T.Scen(pm, markers={"encode_column_header": "list", "update_row": "scalar", "DataFrame": "scalar"}).runs(fi, {ps[0]: T.Sym("self", fi.cls), ps[1]: doc, ps[2]: page})
+    except AnalysisError as e:
+        ctx.gap("R08.2", f"_render_column_headers could not be interpreted on a mock page: {e}")
+        return
+    n = 0
+    for _v, r in runs:
+        if r.raised:
+            ctx.gap("R08.2", f"_render_column_headers raises {r.raised} on a mock page")
+            continue
+        calls = [m for m in r.trace if m.name == "encode_column_header"]
+        if not calls:
+            ctx.gap("R08.2", "the automatic column header (`text is None and as_colheader`) is not encoded on a mock page: branch not re-identified")
+            continue
+        for m in calls:
+            n += 1
+            text, hdr, width = m.arg(0, "df"), m.arg(1, "rtf_attrs"), m.arg(2, "page_col_width")
+            widths = hdr.attrs.get("col_rel_width") if isinstance(hdr, T.Obj) else None
+            auto = isinstance(text, T.Mark) and text.name == "DataFrame"
+            ctx.instance("R08.2", fi.where(), f"auto header text {text!r}"[:120] + f"; header widths {widths!r}; table width {width!r}")
+            if width != W:
+                ctx.violation("R08.2", fi.short, "encode_column_header args " + repr(width)[:60], fi.where(), f"a header row is not encoded in the document's table width (rtf_page.col_width) but in `{width!r}`")
+            if not auto:
+                ctx.gap("R08.2", f"the text of the automatic header `{text!r}`[:60] could not be traced to the page's displayed columns")
+                continue
+            cols = None
+            for a in text.args[:1]:
+                if isinstance(a, list) and len(a) == 1 and isinstance(a[0], list):
+                    cols = a[0]
+            if cols is not None and cols != ["a", "b"]:
+                ctx.violation("R08.2", fi.short, "auto header text " + repr(cols)[:60], fi.where(), f"the automatic header shows {cols!r}, not the page's displayed columns ['a', 'b']")
+            if not isinstance(widths, list) or any(isinstance(x, T.Sym) for x in widths):
+                ctx.gap("R08.2", "the relative widths of the automatic header could not be determined")
+            elif len(widths) != 2:
+                ctx.violation("R08.2", fi.short, "auto header widths stay in full column space", fi.where(),
+                              "the automatic header takes its texts from the page's displayed columns (page_by/subline_by columns removed) but keeps the col_rel_width it "
+                              "inherited from the body for ALL columns: after column removal the header cells no longer line up with the data columns and end at a different right edge")
+            elif widths != reduced:
+                ctx.violation("R08.2", fi.short, "auto header widths from " + repr(widths)[:60], fi.where(), f"automatic header widths are `{widths!r}`, not the page's reduced attributes {reduced!r}")
+    if not n and not ctx.deferred_errors:
+        ctx.gap("R08.2", "_render_column_headers: no header was encoded in the scenario")
 
 
 def r08_4(ctx: Ctx) -> None:
+    """Utils._col_widths returns the running sum of rel_width_i * col_width / sum(rel_widths) in column order (so the last
+    boundary is col_width), and a cell's \\cellx is round(width * 1440).  Both functions are interpreted at test points
+    (exact rationals); agreement at generic points decides equality of the rational functions."""
+    from fractions import Fraction as F
+    from ..pm import AnalysisError
     pm = ctx.pm
     fi = pm.func("Utils._col_widths")
-    t = unparse(fi.node)
-    ok = "total_width = sum(rel_widths)" in t and "cumulative_sum = 0.0" in t and \
-        "[(cumulative_sum := (cumulative_sum + width * col_width / total_width)) for width in rel_widths]" in t
-    comp = [n for n in walk_no_nested(fi.node) if isinstance(n, ast.ListComp)]
-    lf_ok = False
-    if comp and isinstance(comp[0].elt, ast.NamedExpr):
-        v = comp[0].elt.value
-        lf = linform(v)
-        lf_ok = lf == linform(ast.parse("cumulative_sum + width * col_width / total_width", mode="eval").body) and unparse(comp[0].generators[0].iter) == "rel_widths" \
-            and not comp[0].generators[0].ifs and comp[0].elt.target.id == "cumulative_sum"
-    ctx.instance("R08.4", fi.where(), f"_col_widths: cumulative sum of width*col_width/sum(rel_widths) over rel_widths in order: {lf_ok}")
-    if not (lf_ok and "total_width = sum(rel_widths)" in t):
-        ctx.violation("R08.4", fi.short, "formula", fi.where(), "_col_widths is no longer the running sum of rel_width_i * col_width / sum(rel_widths) in column order (last boundary = col_width)")
+    ps = [a.arg for a in fi.node.args.args]
+    points = [([F(2), F(3), F(5), F(7)], F(11)), ([F(1)], F(17, 2)), ([F(1, 3), F(4), F(5, 2)], F(25, 4)), ([F(1), F(1)], F(6))]
+    ctx.extra.setdefault("scenarios", {})["R08.4 Utils._col_widths / Cell._as_rtf"] = {"_col_widths test points (rel_widths, col_width)": len(points), "column counts": [4, 1, 3, 2], "cell widths": 4}
+    ctx.explain("[R08.4] Utils._col_widths and Cell._as_rtf: " + T.ABSTRACTION + "; here the numbers are NOT abstract: the syntax tree is evaluated at exact rational test "
+                "points (4 width vectors of 1-4 columns, 4 cell widths) and compared with the closed form. This is a bounded witness set (agreement of two rational "
+                "functions at generic points), not a symbolic proof for all widths or column counts.")
+    ctx.assume("R08.4: verdict established at 4 (rel_widths, col_width) points and 4 cell widths only; rounding behaviour is probed at 1.0005 in and 1/3 in")
+    bad, undecided = [], None
+    for rel, w in points:
+        if len(ps) != 2:
+            undecided = "signature (rel_widths, col_width) not recognised"
+            break
+        try:
+            runs = T.Scen(pm).runs(fi, {ps[0]: list(rel), ps[1]: w})
+        except AnalysisError as e:
+            undecided = str(e)
+            break
+        if len(runs) != 1 or runs[0][1].raised:
+            undecided = f"{len(runs)} paths / raises {runs[0][1].raised if runs else None}"
+            break
+        got = runs[0][1].ret
+        got = list(got) if isinstance(got, (list, tuple)) else got
+        want, acc = [], F(0)
+        for x in rel:
+            acc += x * w / sum(rel)
+            want.append(acc)
+        if not isinstance(got, list) or any(isinstance(x, T.Sym) or not isinstance(x, (int, float, F)) for x in got):
+            undecided = f"result `{got!r}`[:60] is not a list of numbers"
+            break
+        if len(got) != len(want) or any(abs(float(a) - float(b)) > 1e-9 for a, b in zip(got, want)):
+            bad.append(f"_col_widths({[str(x) for x in rel]}, {w}) = {[round(float(x), 4) for x in got]}, expected {[round(float(x), 4) for x in want]}")
+    ctx.instance("R08.4", fi.where(), f"_col_widths: cumulative sum of width*col_width/sum(rel_widths) over rel_widths in order at {len(points)} test points: {not bad and not undecided}")
+    if undecided:
+        ctx.gap("R08.4", f"Utils._col_widths could not be interpreted: {undecided}")
+    elif bad:
+        ctx.violation("R08.4", fi.short, "formula", fi.where(), "_col_widths is no longer the running sum of rel_width_i * col_width / sum(rel_widths) in column order (last boundary = col_width): " + bad[0])
     c = pm.func("Cell._as_rtf")
-    tc = unparse(c.node)
-    ok = "f'\\\\cellx{Utils._inch_to_twip(self.width)}'" in tc
-    ctx.instance("R08.4", c.where(), f"\\cellx <- shared inch->twip conversion of the cell's width: {ok}")
-    if not ok:
-        ctx.violation("R08.4", c.short, "cellx conversion", c.where(), "\\cellx is not the shared inch->twip conversion of the cell's cumulative width")
+    cps = [a.arg for a in c.node.args.args]
+    bad, undecided = [], None
+    for w in (F(3, 2), F(10005, 10000), F(25, 4), F(1, 3)):
+        me = T.Obj("cell", cls="Cell", width=w, border_left=None, border_right=None, border_top=None, border_bottom=None, vertical_justification=None,
+                   text=T.Obj("text", cls="TextContent"))
+        try:
+            runs = T.Scen(pm).runs(c, {cps[0]: me})
+        except AnalysisError as e:
+            undecided = str(e)
+            break
+        if len(runs) != 1 or runs[0][1].raised or not isinstance(runs[0][1].ret, str):
+            undecided = f"{len(runs)} paths / result `{runs[0][1].ret if runs else None!r}`[:50]"
+            break
+        import re
+        out = runs[0][1].ret
+        m = re.findall(r"\\cellx(-?[0-9.]+|\S*)", out)
+        want = str(round(w * 1440))
+        if m != [want]:
+            bad.append(f"a cell of width {float(w):.4f} in is formatted as `{out[:60]}`, expected exactly one \\cellx{want}")
+    ctx.instance("R08.4", c.where(), f"\\cellx <- round(width * 1440) (the shared inch->twip conversion) at 4 widths: {not bad and not undecided}")
+    if undecided:
+        ctx.gap("R08.4", f"Cell._as_rtf could not be interpreted: {undecided}")
+    elif bad:
+        ctx.violation("R08.4", c.short, "cellx conversion", c.where(), "\\cellx is not the shared inch->twip conversion (round(width * 1440)) of the cell's cumulative width: " + bad[0])
 
 
 def r08_5(ctx: Ctx) -> None:
+    """RTFDocument.__init__ establishes col_rel_width: default [1]*ncol, a single value broadcast to ncol, headers without
+    widths inherit the widths of THEIR OWN section's body (after default/broadcast).  Interpreted on mock documents."""
+    from ..pm import AnalysisError
     pm = ctx.pm
     fi = pm.func("RTFDocument.__init__")
-    t = unparse(fi.node)
-    checks = {
-        "default": "self.rtf_body.col_rel_width = [1] * dim[1]" in t and "section_body.col_rel_width = [1] * dim[1]" in t,
-        "broadcast": "self.rtf_body.col_rel_width = self.rtf_body.col_rel_width * dim[1]" in t and "len(self.rtf_body.col_rel_width) == 1 and dim[1] > 1" in t,
-        "inherit": "header.col_rel_width = self.rtf_body.col_rel_width.copy()" in t and "if header.col_rel_width is None:" in t,
-        "dim": "dim = self.df.shape" in t and "dim = section_df.shape" in t,
-    }
-    ctx.instance("R08.5", fi.where(), f"RTFDocument.__init__ col_rel_width handling: {checks}")
-    for k, ok in checks.items():
-        if not ok:
-            ctx.violation("R08.5", fi.short, "col_rel_width " + k, fi.where(), f"RTFDocument.__init__: {k} handling of col_rel_width changed (default [1]*ncol, scalar broadcast to ncol, headers inherit a copy of the body's widths)")
-    # every store of an inherited width sits in a loop that binds BOTH the header(s) and the body it inherits from
-    for a in ast.walk(fi.node):
-        if isinstance(a, ast.Assign) and unparse(a.targets[0]) == "header.col_rel_width":
-            src = a.value
-            names = {n.id for n in ast.walk(src) if isinstance(n, ast.Name)} - {"self"}
-            loops = [x for x in T.anc(a, fi.node) if isinstance(x, ast.For)]
-            bound = set()
-            for lp2 in loops:
-                bound |= {n.id for n in ast.walk(lp2.target) if isinstance(n, ast.Name)}
-            stale = sorted(n for n in names if n not in bound)
-            ctx.instance("R08.5", fi.where(a), f"`{unparse(a)}` inside loops binding {sorted(bound)}; names bound elsewhere: {stale}")
-            if stale:
-                ctx.violation("R08.5", fi.short, f"stale loop variable {stale} in {unparse(a)}", fi.where(a),
-                              f"`{unparse(a)}` reads {stale}, which is not bound by the loop(s) around it (a variable left over from an earlier loop): "
-                              "every section's header inherits the widths of one fixed section")
-    order_ok = t.find("self.rtf_body.col_rel_width = [1] * dim[1]") < t.find("header.col_rel_width = self.rtf_body.col_rel_width.copy()")
-    if not order_ok:
-        ctx.violation("R08.5", fi.short, "inherit before default", fi.where(), "headers inherit the body's widths before the body's default/broadcast widths are established")
+    ps = [a.arg for a in fi.node.args.args]
+    given = [T.AV("given", 0, c) for c in range(3)]
+    T.scenario_note(ctx, "R08.5", "RTFDocument.__init__", "for every given width entry",
+                    {"documents": ["single section 3 columns: no widths / one width / widths given", "three sections (3, 2, 3 columns) with nested headers", "two sections with a flat header list"],
+                     "evaluations": 5})
+
+    def frame(tag, ncol):
+        return T.Frame(tag, range(2), [f"c{j}" for j in range(ncol)])
+
+    def body(name, w):
+        return T.Obj(name, cls="RTFBody", col_rel_width=w, page_by=None, subline_by=None, group_by=None)
+
+    def hdr(name, w=None):
+        return T.Obj(name, cls="RTFColumnHeader", col_rel_width=w, text=["x"])
+    k7, k5 = T.AV("k", 0, 7), T.AV("k", 0, 5)
+    scen = []
+    scen.append(("single section, no widths", dict(df=frame("t", 3), rtf_body=body("b", None), rtf_column_header=[hdr("h0"), hdr("h1", list(given))]),
+                 {"b": [1, 1, 1], "h0": [1, 1, 1], "h1": given}))
+    scen.append(("single section, one width for three columns", dict(df=frame("t", 3), rtf_body=body("b", [k5]), rtf_column_header=[hdr("h0")]),
+                 {"b": [k5, k5, k5], "h0": [k5, k5, k5]}))
+    scen.append(("single section, widths given", dict(df=frame("t", 3), rtf_body=body("b", list(given)), rtf_column_header=[hdr("h0")]), {"b": given, "h0": given}))
+    scen.append(("three sections (3, 2, 3 columns), nested headers",
+                 dict(df=[frame("s0", 3), frame("s1", 2), frame("s2", 3)], rtf_body=[body("b0", None), body("b1", [k7]), body("b2", list(given))],
+                      rtf_column_header=[[hdr("h00")], [hdr("h10"), hdr("h11", [k5, k5])], [None]]),
+                 {"b0": [1, 1, 1], "b1": [k7, k7], "b2": given, "h00": [1, 1, 1], "h10": [k7, k7], "h11": [k5, k5]}))
+    scen.append(("two sections, flat header list", dict(df=[frame("s0", 2), frame("s1", 3)], rtf_body=[body("b0", [k7]), body("b1", None)], rtf_column_header=[hdr("h0")]),
+                 {"b0": [k7, k7], "b1": [1, 1, 1], "h0": [k7, k7]}))
+    for title, conf, want in scen:
+        me = T.Obj("self", cls="RTFDocument", rtf_page=T.Obj("rtf_page", cls="RTFPage", width=T._Fr(17, 2), col_width=T._Fr(25, 4)), **conf)
+        sc = T.Scen(pm, markers={"super": "scalar", "__init__": "scalar", "_apply_table_spacing": "scalar", "_inch_to_twip": "scalar"})
+        try:
+            if not ps:
+                raise AnalysisError("signature not recognised")
+            runs = sc.runs(fi, {ps[0]: me, "data": {}})
+        except AnalysisError as e:
+            ctx.gap("R08.5", f"RTFDocument.__init__ could not be interpreted ({title}): {e}")
+            continue
+        for _v, r in runs:
+            if r.raised:
+                ctx.gap("R08.5", f"RTFDocument.__init__ raises {r.raised} ({title})")
+                continue
+            doc = sc.last_args[ps[0]]
+            objs = {}
+
+            def collect(v):
+                if isinstance(v, T.Obj):
+                    objs[v.name] = v
+                elif isinstance(v, (list, tuple)):
+                    for x in v:
+                        collect(x)
+            collect(doc.attrs.get("rtf_body"))
+            collect(doc.attrs.get("rtf_column_header"))
+            got = {k: (objs[k].attrs.get("col_rel_width") if k in objs else "?") for k in want}
+            ctx.instance("R08.5", fi.where(), f"RTFDocument.__init__ ({title}): col_rel_width {got!r}"[:290])
+            for k, w in want.items():
+                g = got[k]
+                if isinstance(g, T.Sym) or g == "?":
+                    ctx.gap("R08.5", f"RTFDocument.__init__ ({title}): col_rel_width of {k} could not be determined")
+                elif g != w:
+                    kind = "default" if w and all(x == 1 for x in w) and k.startswith("b") else "broadcast" if k.startswith("b") else "inherit"
+                    extra = ""
+                    if kind == "inherit":
+                        owner = [b for b, bw in want.items() if b.startswith("b") and bw == g]
+                        extra = f" (these are the widths of {owner[0]}: every section's header inherits the widths of one fixed section)" if owner else ""
+                    ctx.violation("R08.5", fi.short, f"col_rel_width {kind}: {k}", fi.where(),
+                                  f"RTFDocument.__init__ ({title}): {k}.col_rel_width becomes {g!r}, expected {w!r}{extra} "
+                                  "(default [1]*ncol, scalar broadcast to ncol, headers inherit a copy of their own body's widths)")
 
 
 def check(ctx: Ctx) -> None:
     ctx.explain(
-        "R08.1 every Cell(width=…) is col_widths[j] (data/header/footnote rows) or the table width (spanning row); every row "
-        "encoder receives document.rtf_page.col_width (15 call sites) and hands it unchanged to Utils._col_widths together with "
-        "the component's own col_rel_width; the body's widths come from the reduced attributes and the same table width. "
-        "R08.2 column-space agreement for automatic headers. R08.3 widths and attribute matrices are cut with the removed "
-        "index set computed on the original frame. R08.4 normal form of _col_widths (running sum, last boundary = col_width) "
-        "and of the \\cellx conversion. R08.5 default/broadcast/inherit handling in RTFDocument.__init__.")
+        "Decided by interpreting the row builders on mock components (tablecore.Scen; no repository code runs). R08.1 every cell built by "
+        "TableAttributes._encode ends at col_widths[j], the spanning row is one cell ending at the width it is given; every call of a row "
+        "encoder passes rtf_page.col_width (expressions are expanded through temporaries and if/else arms); inside encode_column_header / "
+        "encode_footnote / encode_source the boundaries are Utils._col_widths(component's own col_rel_width, the width given); the body's "
+        "boundaries are Utils._col_widths(displayed columns' relative widths, rtf_page.col_width) and reach pagination/rendering. R08.2 the "
+        "automatic header of a page with removed columns carries the page's reduced widths. R08.3 widths and attribute matrices are cut at "
+        "the original positions of the removed columns (mock frame, two removed columns, both set iteration orders). R08.4 _col_widths and "
+        "\\cellx evaluated at exact rational test points. R08.5 default/broadcast/inherit of col_rel_width in RTFDocument.__init__ on mock "
+        "single- and multi-section documents.")
     ctx.assume("rtf_page.col_width is always set by RTFPage._set_default (the `or 8.5` fallbacks are dead)")
+    ctx.assume("polars select/drop/clone/shape/columns behave as documented; BroadcastValue's validator normalises values to nested lists (tablecore.nested_list_form)")
     ctx.undecided("proportionality to within one twip and equality of the last boundary with col_width for concrete widths (float arithmetic)")
     r08_1(ctx)
     r08_2(ctx)
